@@ -26,8 +26,10 @@ Print Assumptions C17_read_bits.
 (* error branches: too wide a field and an index past the array panic (bounds-checked), never OOB *)
 Theorem C17_write_width_rejected : forall a off v w, 64 < w -> write_int a off v w = Panic PIndex.
 Proof. exact write_int_width_panics. Qed.
+Print Assumptions C17_write_width_rejected.
 Theorem C17_read_index_rejected : forall a off w, lenN a <= off / 64 -> read_int a off w = Panic PIndex.
 Proof. exact read_int_index_panics. Qed.
+Print Assumptions C17_read_index_rejected.
 
 (* the mask tables generated from the source: every entry, and nothing beyond 64 *)
 Theorem C17_tables_low : forall n, n <= 64 -> low_set n = Ok (N.ones n).
@@ -36,6 +38,7 @@ Theorem C17_tables_high : forall n, n <= 64 -> high_set n = Ok (N.shiftl (N.ones
 Proof. exact high_set_ok. Qed.
 Theorem C17_tables_reject : forall n, 64 < n -> low_set n = Panic PIndex /\ high_set n = Panic PIndex.
 Proof. intros n H. split; [exact (low_set_panics n H)|exact (high_set_panics n H)]. Qed.
+Print Assumptions C17_tables_reject.
 Print Assumptions C17_tables_low.
 Print Assumptions C17_tables_high.
 
